@@ -140,6 +140,8 @@ PROPS["C15"] = dict(
         dict(name="writers", run="^TestC15RapidWriters$", checks=(10000, 200000), shards=(2, 8), timeout=(200, 600)),
         dict(name="writers_concurrent", run="^TestC15RapidWritersConcurrent$", checks=(5000, 40000), shards=(2, 8), timeout=(200, 900),
              race=(False, True)),
+        dict(name="liveness_exhaustive", run="^TestC15LivenessExhaustive$", shards=1, timeout=(200, 400)),
+        dict(name="liveness", run="^TestC15RapidLiveness$", checks=(3000, 40000), shards=(1, 4), timeout=(200, 600)),
         dict(name="huge_bodies", run="^TestC15HugeBodies$", shards=1, timeout=(200, 400)),
         dict(name="huge_streams_exhaustive", run="^TestC15HugeSeqExhaustive$", shards=(1, 2), timeout=(200, 400)),
         dict(name="huge_streams", run="^TestC15RapidHugeSeq$", checks=(3000, 50000), shards=(1, 4), timeout=(200, 600)),
